@@ -87,6 +87,11 @@ def _np_setdiff1d(eng, args, kwargs):
     numpy 2.x on 20 000 random inputs with repeated `b` values)."""
     a, b = args[0], args[1]
     au = kwargs.get("assume_unique", args[2] if len(args) > 2 else False)
+    if all(isinstance(x, NArr) and x.ndim == 1 and all(isinstance(i, int) and not isinstance(i, bool) for i in x.items) for x in (a, b)) and isinstance(au, bool):
+        # concrete integer arrays (fixed-topology variants): numpy itself computes the result
+        eng.assumptions.add("numpy-model:np.setdiff1d on concrete integer arrays: evaluated by numpy itself")
+        r = np.setdiff1d(np.array(a.items, dtype=np.int64), np.array(b.items, dtype=np.int64), assume_unique=au)
+        return NArr((len(r),), [int(i) for i in r], "int")
     if not (isinstance(a, SArr) and isinstance(b, SArr)):
         raise Unsupported("np.setdiff1d on non-symbolic arrays")
     if au is not True:
@@ -765,3 +770,22 @@ class PairList(PList):
         if isinstance(idx, slice):
             raise Unsupported("slice of the child results")
         return self.get(models.norm_index(eng, idx, self.n, "list index"))
+
+
+# ---------------------------------------------------------------------------------------------------------------
+# np.nonzero of a CONCRETE 1-D mask (fixed-topology variants of BranchTree.from_tree): the positions of the true entries in order;
+# the model is the one of pyvc.ext_C10 (it falls back to the stock symbolic model for every other argument)
+def _np_nonzero(eng, args, kwargs):
+    from .ext_C10 import _nonzero
+
+    return _nonzero(eng, args, kwargs)
+
+
+models.EXTRA_MODELS[np.nonzero] = _np_nonzero
+
+
+# ---------------------------------------------------------------------------------------------------------------
+# lists of Node handles on one tree (pyvc.ext_C07.NodeList: stored as the list of the handles' indices): `append` of a handle
+from .ext_C07 import NodeList, _nl_append  # noqa: E402
+
+models.EXTRA_METHODS[(NodeList, "append")] = _nl_append
